@@ -113,7 +113,7 @@ pub struct KeyCode { p: u16 }
 //@@ no-derives
 //@@ keep-vis
 //@@ attr #[verifier::reject_recursive_types(T)]
-//@@ keep-variants NoOp KeyCode MultipleKeyCodes OneShot Layer MultipleActions Custom
+//@@ keep-variants NoOp Trans KeyCode MultipleKeyCodes OneShot Layer MultipleActions Custom
 //@ item keyberon/src/layout.rs enum CustomEvent
 //@@ no-derives
 //@@ keep-vis
@@ -246,6 +246,10 @@ impl<'a, const C: usize, const R: usize, T: 'a + Copy> Layout<'a, C, R, T> {
             final(self).verif_post_oneshot@ == final(self).oneshot,
             final(self).verif_events@ == old(self).verif_events@,
             final(self).verif_dequeued@ == old(self).verif_dequeued@,
+            // ASSUMED from reading do_action: the only assignments to tap_dance_eager in it store
+            // Some(fresh counter with num_taps 1); an existing counter is never cleared
+            old(self).tap_dance_eager is Some ==> final(self).tap_dance_eager is Some
+                && (final(self).tap_dance_eager == old(self).tap_dance_eager || final(self).tap_dance_eager.unwrap().num_taps == 1),
     { unimplemented!() }
     /// Layout::event: NOT under contract (on a full queue it forces pending keys into hold); recorded
     #[verifier::external_body]
@@ -720,3 +724,106 @@ fn tick_dispatch(&mut self) -> CustomEvent<'a, T>
                 final(self).verif_dequeued@ == old(self).verif_dequeued@
             }
         },
+
+// ---------------------------------------------------------------------------------------
+// A dequeued PRESS: the Press arm of Layout::dequeue (a FRAGMENT).  C17, eager form: "each tap
+// performs its own action immediately": while this key's eager counter runs, the press performs the
+// action for the taps counted so far - exactly once - and counts it; a press of another REAL key
+// ends the count and is then processed normally.
+// ---------------------------------------------------------------------------------------
+//@ item keyberon/src/layout.rs fn is_expired in `TapDanceEagerState<'_, T>`
+//@@ wrap impl<T> TapDanceEagerState<'_, T>
+//@@ ret r
+//@@ spec
+    ensures r == (self.timeout == 0 || self.num_taps as int >= self.actions@.len()),
+//@ item keyberon/src/layout.rs fn set_expired in `TapDanceEagerState<'_, T>`
+//@@ wrap impl<T> TapDanceEagerState<'_, T>
+//@@ spec
+    ensures *final(self) == (TapDanceEagerState { timeout: 0, ..*old(self) }),
+//@ item keyberon/src/layout.rs fn incr_taps in `TapDanceEagerState<'_, T>`
+//@@ wrap impl<T> TapDanceEagerState<'_, T>
+//@@ spec
+    requires old(self).num_taps < u16::MAX,
+    ensures *final(self) == (TapDanceEagerState { num_taps: (old(self).num_taps + 1) as u16, timeout: old(self).orig_timeout, ..*old(self) }),
+
+//@ raw
+impl VerifLayerIter {
+    /// `layer_stack.skip(1)` (the current layer is skipped when resolving under an eager tap-dance)
+    #[verifier::external_body]
+    fn skip(self, n: usize) -> VerifLayerIter { unimplemented!() }
+}
+impl<'a, const C: usize, const R: usize, T: 'a + Copy> Layout<'a, C, R, T> {
+    /// R5: `self.trans_resolution_layer_order().into_iter()` -> the opaque layer-order argument
+    #[verifier::external_body]
+    fn verif_layer_order(&self) -> VerifLayerIter { unimplemented!() }
+}
+/// the log grew by exactly one call
+spec fn one_more<'a, T>(c0: Seq<DoCall<'a, T>>, c1: Seq<DoCall<'a, T>>) -> bool {
+    c1.len() == c0.len() + 1 && c1.drop_last() =~= c0
+}
+/// `&Action::Trans`: "whatever the layers say for this coordinate" (resolved inside do_action)
+pub uninterp spec fn trans_action<'a, T>() -> &'a Action<'a, T>;
+#[verifier::external_body]
+fn verif_trans<'a, T>() -> (r: &'a Action<'a, T>)
+    ensures r == trans_action::<T>(),
+{ unimplemented!() }
+
+//@ fragment keyberon/src/layout.rs fn dequeue in `Layout<'a, C, R, T>` block-after `Press(i, j) => {` as dequeue_press
+//@@ wrap impl<'a, const C: usize, const R: usize, T: 'a + Copy> Layout<'a, C, R, T>
+//@@ header
+fn dequeue_press(&mut self, queue: Queued, i: u8, j: u16) -> CustomEvent<'a, T>
+//@@ resub R5 1 /self\.trans_resolution_layer_order\(\)\.into_iter\(\)/ => `self.verif_layer_order()`
+//@@ resub R5 1 /&mut layer_stack\.skip\((\d+)\)/ => `layer_stack.skip(\1)`
+//@@ resub R5 2 /&mut layer_stack\)/ => `layer_stack)`
+//@@ resub R22 2 /&Action::Trans/ => `verif_trans()`
+//@@ ret r
+//@@ spec
+    requires
+        // a tap-dance never lists 65535 or more actions (the tap counter is a u16)
+        old(self).tap_dance_eager matches Some(tde) ==> tde.actions@.len() < 65535,
+    ensures
+        // exactly one action runs for a dequeued press
+        one_more(old(self).verif_calls@, final(self).verif_calls@),
+        final(self).verif_calls@.last().coord == (i, j),
+        final(self).verif_calls@.last().delay == queue.since,
+        !final(self).verif_calls@.last().is_oneshot,
+        // this key's eager tap-dance counter is running: the action for the taps counted so far
+        (old(self).tap_dance_eager matches Some(tde) && (i, j) == old(self).last_press_tracker.coord
+            && !(tde.timeout == 0 || tde.num_taps as int >= tde.actions@.len())) ==>
+            final(self).verif_calls@.last().action == old(self).tap_dance_eager.unwrap().actions@[old(self).tap_dance_eager.unwrap().num_taps as int],
+        // otherwise: the ordinary resolution through the layers
+        !(old(self).tap_dance_eager matches Some(tde) && (i, j) == old(self).last_press_tracker.coord
+            && !(tde.timeout == 0 || tde.num_taps as int >= tde.actions@.len())) ==>
+            final(self).verif_calls@.last().action == trans_action::<T>(),
+//@@ before-re 1 /self\.do_action\(verif_trans\(\)/
+    proof {
+        // a press of another REAL key ends the eager count before that key is processed; a virtual
+        // key (row 1) does not
+        assert(i == 0 ==> self.tap_dance_eager.unwrap().timeout == 0);
+        assert(i != 0 ==> self.tap_dance_eager == old(self).tap_dance_eager);
+    }
+
+// the eager counter's tick (a FRAGMENT of Layout::tick): it counts down and ends - is dropped -
+// exactly when its timeout has passed or every listed action has been performed
+//@ item keyberon/src/layout.rs fn tick_tde in `TapDanceEagerState<'_, T>`
+//@@ wrap impl<T> TapDanceEagerState<'_, T>
+//@@ spec
+    ensures *final(self) == (TapDanceEagerState { timeout: if old(self).timeout == 0 { 0u16 } else { (old(self).timeout - 1) as u16 }, ..*old(self) }),
+
+//@ fragment keyberon/src/layout.rs fn tick in `Layout<'a, C, R, T>` block-after `if let Some(ref mut tde) = self.tap_dance_eager {` as tick_eager_counter
+//@@ wrap impl<'a, const C: usize, const R: usize, T: 'a + Copy> Layout<'a, C, R, T>
+//@@ header
+fn tick_eager_counter(&mut self)
+//@@ prefix
+    if let Some(ref mut tde) = self.tap_dance_eager {
+//@@ tail
+    }
+//@@ spec
+    ensures
+        old(self).tap_dance_eager is None ==> final(self).tap_dance_eager is None,
+        old(self).tap_dance_eager matches Some(t0) ==> {
+            let t = TapDanceEagerState { timeout: if t0.timeout == 0 { 0u16 } else { (t0.timeout - 1) as u16 }, ..t0 };
+            let ended = t.timeout == 0 || t.num_taps as int >= t.actions@.len();
+            final(self).tap_dance_eager == (if ended { None } else { Some(t) })
+        },
+        final(self).verif_calls@ == old(self).verif_calls@,
